@@ -865,4 +865,5 @@ pub const PROP: Prop = Prop {
         "hook H2 reads the VM bookkeeping without changing it",
     ],
     nondeterminism_is_violation: false,
+    hang_is_violation: true,
 };
